@@ -199,6 +199,11 @@ var stubEnc = []string{"destination writers and source readers (fault-injecting 
 
 // Props are the properties served by the stream-sim engine.
 var Props = []*h.Prop{
+	{ID: "C02", Run: c02enc,
+		Rule:        "encoder-level variant of C02 (the store-level variant runs in store-sim): one evaluation = 3-10 inputs (0 B-600 KiB, five content kinds) compressed by the cgo and by the pure-Go back end of one method (lz4 or zstd) at a drawn level with the storage layer's scratch buffer shape, each frame decoded by a fresh instance of the *other* back end; non-trivial = at least one frame crossed between the builds; distinct = distinct event-log hash",
+		Real:        realEnc,
+		Stub:        stubEnc,
+		Assumptions: []string{"the input space is sampled, not enumerated", "compressed frames of the two back ends may differ; what must agree is what they decode to"}},
 	{ID: "C07", Run: c07,
 		Rule:        "one evaluation = one long-lived compressor instance (method, back end and level drawn) receiving a seeded history of 4-16 Compress / Decompress / SetLevel calls: inputs of 0 B-600 KiB (zeros, text, incompressible, mixed, sparse; sizes biased to 4 KiB / 8 KiB), scratch buffers of drawn length and capacity with dirty contents (nil, empty with capacity, the storage layer's len-8192 cap-16384 buffer, shorter than the input, longer than any output, reused, capacity just above the input length), destination writers that fail after j bytes, source readers with short reads / errors / EOF mid-block; every fault-free Compress is decoded by the same instance, a long-lived second instance or a fresh one; non-trivial = at least one round trip with a non-empty dirty scratch buffer or a fired stream fault; distinct = distinct event-log hash",
 		Real:        realEnc,
@@ -399,4 +404,52 @@ func diffAt(got, want []byte) string {
 		}
 	}
 	return ""
+}
+
+// c02enc: what one build's compressor writes, the other build's decompressor restores.
+func c02enc(r *sim.R) *sim.Violation {
+	t := r.T
+	pair := [][2]impl{{impls[0], impls[2]}, {impls[1], impls[3]}}[t.Draw(2)] // {cgo, native} of lz4 / zstd
+	level := -1
+	if t.Bool() {
+		level = 1 + t.Draw(pair[0].maxLevel)
+	}
+	r.Event("method=%s level=%d", pair[0].typ, level)
+	var enc [2]encoder.Encoder
+	for i := range enc {
+		enc[i] = pair[i].mk()
+		if level > 0 {
+			enc[i].SetLevel(level)
+		}
+		defer enc[i].Close()
+	}
+	n := 3 + t.Draw(8)
+	for k := 0; k < n; k++ {
+		data, note := genData(t, false)
+		for w := 0; w < 2; w++ {
+			scratch, sk := genScratch(t, nil, len(data))
+			wr := &faultWriter{failAfter: -1}
+			nw, err := enc[w].Compress(data, scratch, wr)
+			r.Event("%d: %s compressed by %s (scratch %s): n=%d failed=%v", k, note, pair[w].name, scratchNames[sk], nw, err != nil)
+			sig := fmt.Sprintf("written by %s, read by %s", pair[w].name, pair[1-w].name)
+			if err != nil || nw != wr.buf.Len() {
+				return &sim.Violation{Clause: "compress-fails", Signature: "written by " + pair[w].name, Detail: fmt.Sprintf("Compress(%s) by %s: n=%d err=%v, %d bytes emitted", note, pair[w].name, nw, err, wr.buf.Len())}
+			}
+			emitted := wr.buf.Bytes()
+			if len(emitted) == 0 {
+				return &sim.Violation{Clause: "nothing-emitted", Signature: "written by " + pair[w].name, Detail: fmt.Sprintf("Compress(%s) by %s emitted no bytes and no error", note, pair[w].name)}
+			}
+			other := pair[1-w].mk()
+			out := make([]byte, len(data))
+			in := make([]byte, len(emitted))
+			nd, err := other.Decompress(in, out, &faultReader{data: emitted})
+			_ = other.Close()
+			r.Nontriv = true
+			if err != nil || nd != len(data) || !bytes.Equal(out, data) {
+				return &sim.Violation{Clause: "other-build-cannot-read", Signature: sig,
+					Detail: fmt.Sprintf("%s (level %d) compressed by %s to %d bytes; %s returned n=%d err=%v%s", note, level, pair[w].name, len(emitted), pair[1-w].name, nd, err, diffAt(out, data))}
+			}
+		}
+	}
+	return nil
 }
